@@ -258,7 +258,7 @@ def run(ctx):
                 why = check_run(ctx, case)
                 stats[why] = stats.get(why, 0) + 1
         rounds += 1
-        if quick or ctx.out_of_time(0.8) or rounds >= 4:
+        if quick or ctx.out_of_time(0.8) or rounds >= 10:
             break
     ctx.note("runs by (stopping cause, number of refinements>0): %s" % sorted((str(k), v) for k, v in stats.items()))
 
